@@ -62,6 +62,13 @@ class Engine:
         tree = ast.parse(src)
         for node in tree.body:
             if isinstance(node, ast.FunctionDef):
+                doc = ast.get_docstring(node) or ""
+                if doc.startswith("smt-builtin"):
+                    from .specbuiltins import SPEC_BUILTINS
+                    if node.name not in SPEC_BUILTINS:
+                        raise KeyError(f"spec builtin {node.name} has no SMT definition")
+                    self.spec_funcs[node.name] = SPEC_BUILTINS[node.name]
+                    continue
                 clo = Closure(node, {}, name=node.name)
                 clo.module = None
                 clo.is_spec = True
@@ -333,6 +340,7 @@ class Engine:
             for r in ct.requires:
                 ctx.assume(ctx.zbool(ctx.truth(interp.eval_spec_text(r))))
             ctx.spec = False
+            self.assume_lemmas(interp, ct)
             ctx.old_snap = interp.snapshot()
             ctx.entry_env = dict(env)
             for g, init in ct.ghost.get("init", {}).items():
@@ -436,6 +444,10 @@ class Engine:
             if cur is None or cur.eq(arr0):
                 continue
             cls, field = key.split(".")
+            fresh = getattr(ctx, "fresh_refs", set())
+            if all(r.sexpr() in fresh for k2, r in getattr(ctx, "writes", []) if k2 == key) and \
+                    any(k2 == key for k2, r in getattr(ctx, "writes", [])):
+                continue        # only objects allocated by this call were written
             allowed_refs = []
             whole = False
             for m in ct.modifies:
@@ -455,9 +467,56 @@ class Engine:
             ctx.oblige("frame", f"heap {key}", goal, top=True, info={"frame": key})
             ctx.pc = saved_pc
 
+    def lemma_formula(self, interp, lem, subst=None):
+        """statement of a lemma over fresh constants (or over the given substitution of its variables)"""
+        ctx = interp.ctx
+        env = {}
+        consts = {}
+        for name, tystr in lem["vars"].items():
+            ty = interp.ptype(tystr)
+            c = z3.Const(f"lem_{lem['name']}_{name}", sort_of(ty))
+            consts[name] = c
+            env[name] = ctx.wrap(c, ty)
+        interp.frames.append(Frame(env, None, None, "<lemma>"))
+        saved = ctx.spec
+        ctx.spec = True
+        try:
+            f = ctx.zbool(ctx.truth(interp.eval_spec_text(lem["stmt"])))
+        finally:
+            ctx.spec = saved
+            interp.frames.pop()
+        return consts, f
+
+    def prove_lemmas(self, ct):
+        """induction lemmas: base and step become obligations of their own; the closed lemma is then assumed"""
+        obs = []
+        for lem in ct.lemmas:
+            ctx = Ctx(self, ct, Oracle())
+            interp = Interp(ctx, self)
+            interp.frames.append(Frame({}, None, None, "<lemma>"))
+            consts, f = self.lemma_formula(interp, lem)
+            n = consts[lem["induct"]]
+            base = z3.substitute(f, (n, z3.IntVal(0)))
+            step_hyp = f
+            step_goal = z3.substitute(f, (n, n + 1))
+            ctx.oblige("lemma", f"{lem['name']}.base", base, info={"clause": lem["stmt"]})
+            ctx.pc = [p for p in ctx.pc[:-1]]
+            ctx.pc += [n >= 0, step_hyp]
+            ctx.oblige("lemma", f"{lem['name']}.step", step_goal, info={"clause": lem["stmt"]})
+            obs.extend(ctx.obligations)
+        return obs
+
+    def assume_lemmas(self, interp, ct):
+        ctx = interp.ctx
+        for lem in ct.lemmas:
+            consts, f = self.lemma_formula(interp, lem)
+            n = consts[lem["induct"]]
+            ctx.assume(z3.ForAll(list(consts.values()), z3.Implies(n >= 0, f)))
+
     def verify(self, ct, max_paths=400):
         oracle = Oracle()
         obligations = []
+        obligations.extend(self.prove_lemmas(ct))
         paths = dead = 0
         t0 = time.time()
         while oracle.worklist:
@@ -525,7 +584,7 @@ class Engine:
         s.set("timeout", self.timeout_ms)
         s.add(*ob.assumptions)
         s.add(z3.Not(ob.goal))
-        s.add(*self.unfold_axioms(list(ob.assumptions) + [ob.goal]))
+        s.add(*self.unfold_axioms(list(ob.assumptions) + [ob.goal] + list(ob.hints)))
         r = s.check()
         ob.backend = "z3-" + z3.get_version_string()
         if r == z3.unsat:
